@@ -1,14 +1,12 @@
-SPECIFICATION Spec
+SPECIFICATION TSpec
 CONSTANTS
-  Jids = {"c1"}
-  MaxVer = 2
-  Ress = {"r1"}
+  Jids = {"c1", "c2", "c3"}
+  MaxVer = 3
+  Ress = {"r1", "r2", "bare"}
   Froms = {"absent", "ownBare", "ownFull", "ownOther", "server", "stranger", "contact", "look1", "look2", "look3"}
   ConnKinds = {"plain", "sm", "smr", "resumed"}
-  MaxReqs = 2
-  MaxItems = 1
+  MaxReqs = 99
+  MaxItems = 9
   MaxHist = 99
-CONSTRAINT ReqBound
-VIEW GenView
-ACTION_CONSTRAINT EmitBehaviour
+INVARIANT Done
 CHECK_DEADLOCK FALSE
